@@ -7,9 +7,12 @@ CONSTANTS
   MaxNr = 2
   MinAge = "zero"
   MaxAge = "inf"
+  MaxNrEquality = TRUE
   MaxSerial = 99
   MaxSession = 99
   DeltaChoices = {}
+  TruncateOnCreate = FALSE
+  RemoveOldFirst = FALSE
   MaxFaults = 99
 SPECIFICATION TraceSpec
 INVARIANT FilesAgree
